@@ -148,7 +148,15 @@ func genC18(seed int64, tier string) *Scenario {
 		if len(cands) > 0 && r.Intn(2) == 0 {
 			p := cands[r.Intn(len(cands))]
 			delete(exists, p)
+			editedModule := r.Intn(3) == 0
+			if editedModule {
+				// the module itself is open with an unsaved edit when it is deleted on disk
+				sc.Ops = append(sc.Ops, Op{Kind: "open", Path: p}, Op{Kind: "change", Path: p, Edits: []Edit{{Start: Pos{0, 0}, End: Pos{0, 0}, Text: "-- edited\n"}}})
+			}
 			sc.Ops = append(sc.Ops, Op{Kind: "fsremove", Path: p})
+			if editedModule {
+				sc.Ops = append(sc.Ops, Op{Kind: "deliver"}, Op{Kind: "close", Path: p})
+			}
 			if r.Intn(3) == 0 {
 				// one watcher batch: the module event together with a no-op change of the requirer
 				sc.Ops = append(sc.Ops, Op{Kind: "touchq", Path: mainPath})
